@@ -15,6 +15,7 @@ from "appears"; a comment inside a formula kept verbatim is part of the formula 
 """
 import re
 from ..shard import rng_for
+from ..util import converter
 from ..rec import Recorder
 from pylatexenc.latex2text import LatexNodes2Text
 
@@ -206,7 +207,7 @@ def convert_via(doc, opts, via):
     """The class, or one of the deprecated module-level functions (keep_inline_math=True is math_mode='verbatim',
     False is 'text'; they take no other option)."""
     if via == 'class':
-        return LatexNodes2Text(**opts).latex_to_text(doc, tolerant_parsing=False)
+        return converter(opts, doc).latex_to_text(doc, tolerant_parsing=False)
     import warnings
     from pylatexenc import latex2text as L2T, latexwalker as LW
     kim, kc = (opts['math_mode'] == 'verbatim'), bool(opts['keep_comments'])
